@@ -3,6 +3,7 @@ CONSTANTS
   Progs <- ThoroughProgs
   NullCheckInDtor = TRUE
   MoveEmpties = TRUE
+  AssignSwaps = FALSE
 VIEW View
 INVARIANTS FalseUntilFirstDestroy PollTruth NoCrash
 PROPERTY OneWay
